@@ -232,6 +232,12 @@ def edits(enc, others, tier, codec):
         for o in others[:3]:
             if o is not enc:
                 yield enc[:i] + o[min(i, len(o)):]        # splice tail of another encoding
+        if codec not in impl.TEXT:
+            for k in (2, 3, 4, 8):                        # length-field tampering
+                yield enc[:i] + bytes([0x80 | k]) + b'\xff' * k + enc[i + 1:]
+                yield enc[:i] + bytes([k]) + b'\xff' * k + enc[i + 1:]
+            for fr in (0xc1, 0xc4):                       # PER fragment announcement
+                yield enc[:i] + bytes([fr]) + enc[i + 1:]
     for b in (ALPHA12 if codec not in impl.TEXT else b'{["<&1'):
         yield enc + bytes([b])
 
